@@ -30,9 +30,25 @@ pub fn check_bytes(bytes: &[u8]) -> Result<bool, String> {
     }
 }
 
+/// The same oracle when the byte string is served by a source returning short and interrupted
+/// reads (acceptance depends on the bytes, not on how they are served).
+pub fn check_bytes_short(bytes: &[u8]) -> Result<bool, String> {
+    let want = parse_trailer(bytes);
+    let ctl = vlib::sio::Ctl::new(vlib::sio::Policy::Alternate);
+    let got = catch_unwind(AssertUnwindSafe(|| Reader::new(vlib::sio::SFile::with_data(&ctl, bytes.to_vec())).map(|_| ())));
+    match got {
+        Err(p) => Err(format!("Reader::new over a short-reading source panicked: {}", panic_message(&p))),
+        Ok(Ok(())) if want.is_none() => Err("Reader::new over a short-reading source accepted a byte string without a valid trailer".into()),
+        Ok(Err(e)) if want.is_some() => Err(format!("Reader::new over a short-reading source rejected ({e}) a byte string ending with a valid trailer")),
+        Ok(r) => Ok(r.is_ok()),
+    }
+}
+
 fn record(kind: &str, bytes: &[u8], acc: &mut Acc) {
     acc.evaluations += 1;
-    match check_bytes(bytes) {
+    // truncations and trailer corruptions are also opened through a short-reading source
+    let r = check_bytes(bytes).and_then(|a| if kind == "truncation" || kind == "trailer_corruption" { check_bytes_short(bytes) } else { Ok(a) });
+    match r {
         Ok(true) => {
             acc.hist(&format!("{kind}_accepted"));
             acc.nontrivial += 1;
@@ -212,7 +228,7 @@ pub fn run(tier: Tier) -> i32 {
         }
     }
     rep.acc = total;
-    rep.set("rule", json!("E2: (a) every truncation length 0..=len of each finished file (the crash states of an append-only writer are exactly its prefixes), including a file whose values embed complete V1/V2 trailers so that accepted truncations exist; (b) every single-byte corruption of the 22 trailer bytes of each file and of V1 re-trailed files; (c) all byte strings of length <= 3 (16.8 M) and, for lengths 4..=40, {V1 magic, V2 magic, byte-swapped, each single-bit flip, neither} x codec byte 0..=255 x 4 fillers; each under catch_unwind; oracle: Reader::new is Ok iff the independent trailer predicate accepts; (d) all 256 codec bytes x V1/V2 bare trailers and a finished file opened by a separate build of grenad with its default feature set only (acceptance must not depend on compiled-in codecs); states = byte strings, distinct_nontrivial = accepted byte strings"));
+    rep.set("rule", json!("E2: (a) every truncation length 0..=len of each finished file (the crash states of an append-only writer are exactly its prefixes), including a file whose values embed complete V1/V2 trailers so that accepted truncations exist; (b) every single-byte corruption of the 22 trailer bytes of each file and of V1 re-trailed files; (c) all byte strings of length <= 3 (16.8 M) and, for lengths 4..=40, {V1 magic, V2 magic, byte-swapped, each single-bit flip, neither} x codec byte 0..=255 x 4 fillers; each under catch_unwind (truncations and corruptions also through a source serving short and interrupted reads); oracle: Reader::new is Ok iff the independent trailer predicate accepts; (d) all 256 codec bytes x V1/V2 bare trailers and a finished file opened by a separate build of grenad with its default feature set only (acceptance must not depend on compiled-in codecs); states = byte strings, distinct_nontrivial = accepted byte strings"));
     rep.set("bound", json!({"finished_files": files.iter().map(|f| json!({"name": f.0, "len": f.1.len()})).collect::<Vec<_>>() }));
     rep.finish()
 }
